@@ -7,6 +7,7 @@ import Fx.Walk
 import Fx.Lemmas.ParseNorm
 import Fx.Lemmas.ParseAst
 import Fx.Lemmas.PegLimit
+import Fx.Lemmas.IndexFacts
 namespace Fx.C12
 open Fx
 
@@ -480,6 +481,43 @@ theorem C12_ast_closed_form_total (s : Parse.Spec) (h : s.ok = true) :
 /-- the executable front end and the budget-free one: equal wherever the executable one answers -/
 theorem C12_executable_front_end_agrees (txt : String) (h : Ast.new txt ≠ .outOfFuel) : Ast.new txt = Ast.newLim txt :=
   Ast.new_eq_newLim txt h
+
+/-! ### the indexes of every `Ast` the front end builds -/
+
+/-- **C12 (the type index is complete and exact).**  For every item list whose type names are declared once: every declaration
+    is in the type index under its own name (`bget name = some declaration`), and everything in the index is a declaration of the
+    specification under its own name; the index is strictly sorted by name. -/
+theorem C12_type_index_exact (items : List Item) (hd : (items.filterMap typeEntry).Pairwise (fun x y => x.1 ≠ y.1)) :
+    (∀ kv ∈ items.filterMap typeEntry, bget kv.1 (TypeIndex.new items) = some kv.2) ∧
+    (∀ kv ∈ TypeIndex.new items, ∃ item ∈ items, typeEntry item = some kv) ∧
+    SortedK (TypeIndex.new items) :=
+  ⟨fun kv h => typeIndex_complete items hd kv h, fun kv h => typeIndex_mem items kv h, typeIndex_sorted items⟩
+
+/-- **C12 (the constant index is exact).**  When `ConstantIndex::new` does not panic, the index holds exactly the constants and
+    enum members the specification declares, each under its own name, strictly sorted. -/
+theorem C12_constant_index_exact (items : List Item) (cs : List (String × ConstantType)) (h : ConstantIndex.new items = .ok cs) :
+    SortedK cs ∧ (∀ x, x ∈ cs ↔ x ∈ constEntries items) ∧ (∀ x ∈ constEntries items, bget x.1 cs = some x.2) := by
+  obtain ⟨hs, hm⟩ := constIndex_spec items cs h
+  exact ⟨hs, hm, fun x hx => bget_of_mem_sortedK cs hs x.1 x.2 ((hm x).mpr hx)⟩
+
+/-- the part of `Supported` that is about the *content* of the specification: which constructs it uses, how things are named -/
+def SupportedContent (a : Ast) : Bool :=
+  a.types.all (fun kv => nameSafe kv.1 && typeOk a kv.2) && constNamesOk a && noGuardConst a
+
+/-- **`Supported` is a condition on the specification, not on the index machinery.**  For every `Ast` the front end builds from an
+    item list whose type names are declared once, the index-shape conjuncts of `Supported` (`keysOk`'s key and order part,
+    `enumConstsOk`, `constsWellFormed`) hold by construction (Lemmas/IndexFacts), so `Supported a` is exactly its content part. -/
+theorem C12_supported_iff_content (items : List Item) (a : Ast) (ha : Ast.ofItems items = .ok a)
+    (hd : (items.filterMap typeEntry).Pairwise (fun x y => x.1 ≠ y.1)) :
+    Supported a = SupportedContent a := by
+  obtain ⟨hk, hs, he, hw⟩ := index_facts_of_front_end items a ha hd
+  rw [Bool.eq_iff_iff]
+  simp only [Supported, SupportedContent, keysOk, hs, he, hw, Bool.and_true, Bool.and_eq_true, List.all_eq_true, beq_iff_eq]
+  constructor
+  · rintro ⟨⟨⟨h1, h2⟩, h3⟩, h4⟩
+    exact ⟨⟨fun kv hkv => ⟨(h1 kv hkv).2, h2 kv hkv⟩, h3⟩, h4⟩
+  · rintro ⟨⟨h1, h3⟩, h4⟩
+    exact ⟨⟨⟨fun kv hkv => ⟨hk kv hkv, (h1 kv hkv).1⟩, fun kv hkv => (h1 kv hkv).2⟩, h3⟩, h4⟩
 
 section example_closed_form
 open Parse
